@@ -680,9 +680,12 @@ class VectorAwkward:
         if all(not isinstance(x, ak.Array) for x in result):
             maybe_record = _yes_record
             result = [
-                ak.Array(x.layout.array[x.layout.at : x.layout.at + 1])
+                ak.Array(
+                    x.layout.array[x.layout.at : x.layout.at + 1],
+                    behavior=self.behavior,  # type: ignore[attr-defined]
+                )
                 if isinstance(x, ak.Record)
-                else ak.Array([x])
+                else ak.Array([x], behavior=self.behavior)  # type: ignore[attr-defined]
                 for x in result
             ]
         else:
